@@ -237,30 +237,29 @@ Definition rt_check (tg : bytes) (pk : packet) (enc_outcome : N) (enc : bytes)
   let v := pk_version pk in
   let wf := wf_packet pk in
   let tgw := if wf then tg ++ tag "-wf" else tg ++ tag "-other" in
-  (* correspondence of the encoder *)
-  if negb (class_of m =? enc_outcome) then verdict 2 (tgw ++ tag "-enc") wf [VN (class_of m)]
+  let obs := VL [dec_proj; VB unread] in
+  let want := VL [val_of_packet (norm pk (rem_of enc)); VB []] in
+  (* 1. the specification, on what the implementation did *)
+  if (enc_outcome =? 2) || (dec_outcome =? 2) then verdict 1 (tgw ++ tag "-panic") wf []
+  else if (enc_outcome =? 0) && negb (is_ping pk) && negb (length_field_ok enc)
+  then verdict 1 (tgw ++ tag "-length") wf []
+  else if wf && (enc_outcome =? 0) && negb ((dec_outcome =? 0) && beq_val obs want)
+  then verdict 1 tgw true [want]
+  else if wf && negb (enc_outcome =? 0) && negb (KF_C26_pid0 pk)
+  then verdict 1 (tgw ++ tag "-refused") true []
+  (* 2. correspondence with the model *)
+  else if negb (class_of m =? enc_outcome) then verdict 2 (tgw ++ tag "-enc") wf [VN (class_of m)]
   else match m with
   | Ok mb =>
       if negb (beq_bytes mb enc) then verdict 2 (tgw ++ tag "-bytes") wf [VB mb]
-      else if negb (is_ping pk) && negb (length_field_ok enc) then verdict 1 (tgw ++ tag "-length") wf []
       else
         let md := map_res (fun x => VL [val_of_packet (fst x); VB (snd x)]) (mochi_decode_packet v enc) in
-        let obs := VL [dec_proj; VB unread] in
-        if wf then
-          (* specification: decodes to the normal form of the packet *)
-          let want := VL [val_of_packet (norm pk (rem_of enc)); VB []] in
-          if (dec_outcome =? 0) && beq_val obs want then
-            match md with
-            | Ok mv => if beq_val mv obs then verdict 0 tgw true [] else verdict 2 (tgw ++ tag "-dec") true [mv]
-            | _ => verdict 2 (tgw ++ tag "-dec") true [VN (class_of md)]
-            end
-          else verdict 1 tgw true [want]
-        else total_verdict tgw false dec_outcome obs md
-  | _ =>
-      (* the encoder returned an error: allowed for a packet that is not well-formed; for a
-         well-formed one only for the missing packet identifier *)
-      if wf && negb (KF_C26_pid0 pk) then verdict 1 (tgw ++ tag "-refused") true []
-      else verdict 0 (tgw ++ tag "-refused") false []
+        if negb (class_of md =? dec_outcome) then verdict 2 (tgw ++ tag "-dec") wf [VN (class_of md)]
+        else match md with
+             | Ok mv => if beq_val mv obs then verdict 0 tgw wf [] else verdict 2 (tgw ++ tag "-dec") wf [mv]
+             | _ => verdict 0 (tgw ++ tag "-err") false []
+             end
+  | _ => verdict 0 (tgw ++ tag "-refused") false []
   end.
 
 (* ENGINE codec_rt Codec.CodecEngine.rt_engine *)
